@@ -189,6 +189,50 @@ _mk((2, 3), 0.2, tier='thorough', quick=False)
 _mk((2, 2), 0.1, tier='thorough', quick=False)
 
 
+@obligation('C07.history.detectors', functions=FUNCS, timeout_s=120, nvalid=2, cost=3,
+            stubs=['raw_fields := uninterpreted function of the position arguments'],
+            bounds='one sphere (symbolic position), a sequence of calculations in one process: two 2x2 crops of a 3x3 '
+                   'grid with the same shape and spacing but different origins, then the full grid, then the first crop '
+                   'again; a points detector given in spherical form (r, theta, phi) used three times: every result '
+                   'equals the full-grid value at the same location / the first result, and no detector is modified')
+def history_detectors(S):
+    _setup(S)
+    theory = pos_theory(S)
+    c = [S.real('cx'), S.real('cy'), S.real('cz', lo=1)]
+    sph = Sphere(n=1.59, r=0.5, center=c)
+    kw = dict(medium_index=1.33, illum_wavelen=0.66, illum_polarization=(1, 0), theory=theory)
+    big = detector_grid((3, 3), 0.5)
+    crop_a = big.isel(x=slice(0, 2), y=slice(0, 2))
+    crop_b = big.isel(x=slice(1, 3), y=slice(1, 3))
+
+    def vals(h, n):
+        return h.transpose('x', 'y', 'z').values.reshape(n, n)
+    ha = vals(calc_holo(crop_a, sph, **kw), 2)
+    hb = vals(calc_holo(crop_b, sph, **kw), 2)
+    hbig = vals(calc_holo(big, sph, **kw), 3)
+    ha2 = vals(calc_holo(crop_a, sph, **kw), 2)
+    S.observe('hb', hb)
+    S.claim_eq('first_crop', ha, hbig[0:2, 0:2])
+    S.claim_eq('second_crop_same_shape_other_origin', hb, hbig[1:3, 1:3])
+    S.claim_eq('first_crop_again', ha2, hbig[0:2, 0:2])
+    S.claim('crop_coords', list(crop_b.x.values) == [0.5, 1.0] and list(crop_a.x.values) == [0.0, 0.5])
+    # spherical-form points, reused
+    from holopy.scattering import calc_field
+    r0, th0, ph0 = [S.real('r0', lo=1), S.real('r1', lo=1)], [0.3, 1.2], [0.4, 2.5]
+    obj = object if S.sym else float
+    pts = detector_points(r=np.array(r0, dtype=obj), theta=list(th0), phi=list(ph0))
+    f1 = calc_field(pts, sph, **kw).values
+    f2 = calc_field(pts, sph, **kw).values
+    f3 = calc_field(pts, sph, **kw).values
+    S.claim_eq('spherical_points_second_call', f2, f1)
+    S.claim_eq('spherical_points_third_call', f3, f1)
+    S.claim_eq('spherical_points_r_untouched', pts.r.values, np.array(r0, dtype=obj))
+    S.claim('spherical_points_angles_untouched', bool(np.allclose(pts.theta.values, th0)
+                                                      and np.allclose(pts.phi.values, ph0)))
+    fresh = detector_points(r=np.array(r0, dtype=obj), theta=list(th0), phi=list(ph0))
+    S.claim_eq('spherical_points_fresh_detector', calc_field(fresh, sph, **kw).values, f1)
+
+
 from props import mlcommon as mc  # noqa
 from holopy.scattering.theory.mielens import MieLens  # noqa
 
